@@ -68,6 +68,7 @@ def default_knobs():
   return {"strategy": "random", "sticky_den": 4, "pct_d": 2,
           "pct_horizon": 400, "gap_max": 0, "line_budget": 0, "fair": 64,
           "stall_den": 0, "late_den": 0, "phase2_seeded": 1,
+          "tstall_den": 0, "tstall_at": None, "faults_in_close": 0,
           "hot_line": None, "hot_budget": 0}
 
 
@@ -132,6 +133,14 @@ class C17(Property):
     knobs["fair"] = W.pick("fair", [64, 8, 32, 256])
     knobs["stall_den"] = W.pick("stall", [0, 0, 40, 10, 4])
     knobs["late_den"] = W.pick("late", [0, 0, 8, 2])
+    knobs["tstall_den"] = W.pick("tstall", [0, 0, 0, 40, 10])
+    if W.chance("tstall-placed", 1, 4):
+      # stalls placed at one kind of synchronisation point only, and likely
+      knobs["tstall_den"] = 2
+      knobs["tstall_at"] = W.pick("tstall-at", [
+        "lock.rel", "lock.acq", "ev.is_set", "ev.wait", "dev.stop_stream",
+        "dev.close", "dev.write"])
+    knobs["faults_in_close"] = 1 if W.chance("faults-in-close", 1, 3) else 0
     knobs["phase2_seeded"] = W.pick("p2", [1, 20, 200])
     if self.hot_lines and W.chance("hot", 1, 3):
       knobs["hot_line"] = W.pick("hotline", self.hot_lines)
@@ -698,8 +707,12 @@ class C17(Property):
         aio2.close()
         aio2.finished = True
         outcome["close_returned_at"] = len(world.history)
-      outcome["alive_after_close"] = [i for i, th in enumerate(ctl["players"])
-                                      if th is not None and th.is_alive()]
+      # (the scheduler's own knowledge, not th.is_alive(): code that
+      # disturbs the Thread object's private state must not fool the oracle)
+      outcome["alive_after_close"] = [
+        i for i, th in enumerate(ctl["players"])
+        if th is not None and getattr(th, "_sim_thread", None) is not None
+        and th._sim_thread.state != "finished"]
       outcome["writes_at_close"] = [len(th.stream.writes) if th is not None
                                     else 0 for th in ctl["players"]]
       outcome["threads_left"] = len(getattr(aio, "_threads", ()))
